@@ -16,6 +16,8 @@ for d in sorted(x for x in glob.glob(os.path.join(os.path.dirname(os.path.dirnam
     caught = sorted(set(re.findall(r'replays/C\d+-(\w+)-[0-9a-f]+\.json', res)))
     incon = sorted(set(re.findall(r'INCONCLUSIVE harness=(\w+)', res)))
     verdict = ('caught by ' + ', '.join('`%s`' % c for c in caught)) if caught else ('NOT caught' + (' (inconclusive: %s)' % ', '.join(incon) if incon else '') if res else 'not run yet')
+    if os.path.exists(os.path.join(d, 'check_result_before_strengthening.txt')):
+        verdict = 'first run: NOT caught; after strengthening: ' + verdict
     def short(x, n=220):
         x = ' '.join(str(x).split())
         return x if len(x) <= n else x[:n - 1] + '…'
